@@ -32,7 +32,9 @@ def lanczos_iteration(Afunc, vstart, numiter):
     V[0] = vstart
 
     for j in range(numiter-1):
-        w = Afunc(V[j])
+        # private copy, since 'w' is modified in place below and 'Afunc' might
+        # return (a view of) its argument or a buffer which it owns
+        w = np.array(Afunc(V[j]))
         alpha[j] = np.vdot(w, V[j]).real
         w -= alpha[j]*V[j] + (beta[j-1]*V[j-1] if j > 0 else 0)
         # full re-orthogonalization against all previous Lanczos vectors, since
@@ -50,7 +52,7 @@ def lanczos_iteration(Afunc, vstart, numiter):
 
     # complete final iteration
     j = numiter-1
-    w = Afunc(V[j])
+    w = np.array(Afunc(V[j]))
     alpha[j] = np.vdot(w, V[j]).real
     return (alpha, beta, V.T)
 
@@ -79,7 +81,9 @@ def arnoldi_iteration(Afunc, vstart, numiter):
     V[0] = vstart
 
     for j in range(numiter-1):
-        w = Afunc(V[j])
+        # private copy, since 'w' is modified in place below and 'Afunc' might
+        # return (a view of) its argument or a buffer which it owns
+        w = np.array(Afunc(V[j]))
         # subtract the projections on previous vectors
         for k in range(j+1):
             H[k, j] = np.vdot(V[k], w)
@@ -96,7 +100,7 @@ def arnoldi_iteration(Afunc, vstart, numiter):
 
     # complete final iteration
     j = numiter-1
-    w = Afunc(V[j])
+    w = np.array(Afunc(V[j]))
     for k in range(j+1):
         H[k, j] = np.vdot(V[k], w)
         w -= H[k, j]*V[k]
